@@ -259,7 +259,7 @@ def _initialised(ctx, module, path, alloc: _Alloc, upto: int):
         step = path[idx]
         if step.kind == "iter" and isinstance(step.node, ast.For):
             info = loops.setdefault(id(step.node), {"iters": [], "exit": None, "iter_text": None})
-            info["iter_text"] = _txt(step.expand(step.node.iter))
+            info["iter_text"] = _index_loop_over(_txt(step.expand(step.node.iter)), alloc)
             info["exit"] = None
             info["iters"].append({"index": idx, "stored": False})
         elif step.kind == "loopexit" and id(step.node) in loops:
@@ -267,7 +267,7 @@ def _initialised(ctx, module, path, alloc: _Alloc, upto: int):
             loops[id(step.node)]["exit_index"] = idx
         elif step.kind == "loopexit" and isinstance(step.node, ast.For):
             loops[id(step.node)] = {"iters": [], "exit": step.data,
-                                    "iter_text": _txt(step.expand(step.node.iter))}
+                                    "iter_text": _index_loop_over(_txt(step.expand(step.node.iter)), alloc)}
         if idx <= alloc.index:
             continue
         for var, key, masked in _store_key(ctx, module, step, names):
@@ -346,8 +346,26 @@ def _initialised(ctx, module, path, alloc: _Alloc, upto: int):
     return False, "no loop over the complete key set of the allocation writes the buffer"
 
 
+def _index_loop_over(iter_text: str, alloc) -> str:
+    """``range(len(X))`` is an index loop over all of X.  When X is the key tuple of the new buffer, or the exponent
+    matrix the buffer was allocated from (one key per row), the loop visits every key position: it is reported as a
+    loop over ``<alloc>.keys`` (the stores are then matched by position, see _elem_of)."""
+    if iter_text.startswith("range(len(") and iter_text.endswith("))"):
+        over = iter_text[len("range(len("):-2]
+        if over.endswith(".keys"):
+            return over
+        exps = _txt(alloc.exps) if getattr(alloc, "exps", None) is not None else None
+        if exps is not None and over == exps:
+            return f"{alloc.text}.keys"
+    return iter_text
+
+
 def _elem_of(key_exp, iter_text: str) -> bool:
     """key is the loop variable of the loop over ``iter_text`` (directly or via zip)."""
+    # keys[idx] inside 'for idx in range(len(<rows the buffer was allocated from>))': the key at the loop's position
+    if isinstance(key_exp, ast.Subscript) and is_S(key_exp.slice, "index") and _txt(key_exp.value).endswith(".keys") \
+            and iter_text.endswith(".keys"):
+        return True
     if is_S(key_exp) and key_exp.func.id[1:] == "elem":
         inner = _txt(key_exp.args[0])
         if inner == iter_text:
